@@ -27,8 +27,5 @@ Print Assumptions C08_canonical_bytes_are_unique.
 
 Theorem C08_same_content_same_bytes : forall x y, canon x = x -> canon y = y -> wf x -> wf y ->
   (encode x = encode y <-> x = y).
-Proof.
-  intros x y Hx Hy Wx Wy. split; [|intros ->; reflexivity]. intros E.
-  destruct (encode_injective x y [] [] Wx Wy) as [H _]; [rewrite !app_nil_r; exact E|]. congruence.
-Qed.
+Proof. exact encode_eq_iff. Qed.
 Print Assumptions C08_same_content_same_bytes.
